@@ -203,7 +203,7 @@ func VerifC03_Limits() {
 		verif.Assert("success_respects_total_size", total <= maxTotal)
 		verif.Assert("success_respects_file_size", biggest <= maxFileSize)
 		verif.Assert("success_respects_depth", verif.Or(maxDepth < 0, deepest <= maxDepth))
-		verif.AssertKnown("lying_header_is_an_error", !st.lying, "KF-C03-short-declared-size-accepted", st.lyingShort)
+		verif.Assert("lying_header_is_an_error", !st.lying)
 	} else {
 		verif.Reach("refused")
 	}
